@@ -583,7 +583,7 @@ func c31Drive(c c31Case, salt int) *c31Run {
 					sleep(time.Duration(c.Interval))
 				}
 				if op.RD >= 4 {
-					settle(0)
+					sleep(c31DrainTick) // the drop of ID reaches the filters before the reload
 					doResize(i, K, op.RD)
 				}
 				fillTo(125)
@@ -694,7 +694,7 @@ func TestC31(t *testing.T) {
 	c31T = t
 	vkit.Run(t, vkit.Spec[c31Case]{
 		ID: "C31",
-		Rule: "rapid-generated histories (3-40 ops, 3-80 in the thorough tier) of Record(kept: rate, reason, span counts) / Record(dropped) / bulk drops (incl. fills aimed at 45..125 % of the filter's slots) / CheckSpan(annotation type) / CheckTrace / Resize(K,D) / advance " +
+		Rule: "rapid-generated histories (3-40 ops, 3-80 in the thorough tier) of Record(kept: rate, reason, span counts) / Record(dropped) / bulk drops (incl. fills aimed at 45..125 % of the filter's slots) / CheckSpan(annotation type) / CheckTrace / Resize(K,D) (also aimed: right after a drop recorded above 50 % load, growing and shrinking, followed by a rotation and a lookup) / advance " +
 			"(50 us, 100 us drain tick, 1 ms, SizeCheckInterval, recent-drop TTL +-1 ns) against cache.NewCuckooSentCache in a synctest bubble; K in {1,2,3,8} with an id pool of K+1..K+2, D in {64,256,1024}; every lookup is judged against a reference LRU (kept side) " +
 			"and a conservative two-generation reference (dropped side; a generation carries claims only up to 0.85 of its own slots, so records that have to survive in a shrunken generation during a pending capacity change are don't-care). Non-trivial: an eviction from the reference LRU, a resize below the current size, or a lookup of an id recorded both kept and dropped. Distinct = distinct case JSON.",
 		Assumptions: []string{
@@ -702,6 +702,7 @@ func TestC31(t *testing.T) {
 			"kept side: a lookup bumps recency only when it is answered 'kept'; answers 'kept' for ids the reference has already evicted are not judged (one-directional statement)",
 			"dropped side: a drop record is claimed remembered (a) by CheckSpan for < 3 s after the record or the last 'dropped' CheckSpan answer, (b) while it sits in the generation that is current now and that generation's modelled insert count is <= 0.85 of its own slots and no id has been inserted into it more than 6 times",
 			"generations follow the documented behaviour: the future generation exists from the moment the current one is more than half loaded (created in drain with the capacity configured at that moment) and receives every later record; rotation instants are taken from the cuckoo_current_load_factor gauge (rotation at > 0.99). DESIGN's rule (load at insertion < 0.85 and < 0.45 x slots later records) is implied by (b) for generations of equal size",
+			"capacity change (Resize): the new capacity applies to generations created afterwards; a future generation that is already filling keeps its size and its records, so a drop recorded above 50 % load stays claimed across a growing or shrinking Resize and the following rotation (>= 0.5 x the old generation's slots of further records), except while the current generation is between 0.85 load and its rotation",
 			"capacity change (Resize): each generation is judged against its own size; while the change is pending a smaller future generation that must absorb half of a larger current one goes above 0.85 load and then carries no claim - records made during the transition are don't-care once that generation becomes current",
 			"CheckTrace is judged for a dropped id only after a drain tick (>= 100 us) has passed; the harness never lets more than 1000 adds queue up",
 			"filter false positives: a violation is reported only if it reproduces with all trace ids re-salted",
